@@ -249,11 +249,35 @@ type bcState struct {
 }
 
 func (w *bcWalker) sym(e ast.Expr) string {
-	// canonical symbol for len(<slice>) after inlining locals
-	s := w.c.sxInl(e, w.defs)
+	// canonical symbol for len(<node>.<Field>) after inlining locals; the variable that holds the node is replaced by its
+	// type, so that renaming a parameter (call -> callExpr) does not make two names for one quantity
+	c := w.c
+	depth := 0
+	var sub func(n ast.Node) (string, bool)
+	sub = func(n ast.Node) (string, bool) {
+		id, ok := n.(*ast.Ident)
+		if !ok {
+			return "", false
+		}
+		o := c.objOf(id)
+		if d, ok := w.defs[o]; ok && depth < 20 {
+			depth++
+			s := sxWith(d, sub)
+			depth--
+			return s, true
+		}
+		if v, ok := o.(*types.Var); ok && !v.IsField() && v.Pkg() != nil && v.Parent() != v.Pkg().Scope() {
+			return "<" + strings.TrimPrefix(typeStr(v.Type()), "*") + ">", true
+		}
+		return "", false
+	}
+	s := sxWith(e, sub)
 	r := strings.NewReplacer("(CallExpr Fun:len Args:[", "len(", "(SelectorExpr ", "", " Sel:", ".", ")])", ")", ")", "")
 	return r.Replace(s)
 }
+
+// argsSym is the symbol for "number of arguments of the call being compiled" in the function under analysis.
+func (w *bcWalker) argsSym() string { return "len(<parser/ast.CallExpr>.Args)" }
 
 func (w *bcWalker) fail(pos token.Pos, format string, a ...interface{}) {
 	w.problems = append(w.problems, w.c.pos(pos)+": "+fmt.Sprintf(format, a...))
@@ -268,7 +292,7 @@ func (w *bcWalker) applyOp(st *bcState, op string, operands []ast.Expr, pos toke
 	if strings.HasPrefix(op, "$") {
 		// by-value intrinsic opcode chosen from the table: pops = arity = len(call.Args) (SIG-3 + ARITY), pushes 1
 		pops = linConst(0)
-		pops.m["len(call.Args)"] = 1
+		pops.m[w.argsSym()] = 1
 		pushes = linConst(1)
 	} else {
 		eff, ok := w.effects[op]
@@ -288,8 +312,8 @@ func (w *bcWalker) applyOp(st *bcState, op string, operands []ast.Expr, pos toke
 				s = w.sym(operands[t.idx])
 			case "nfields":
 				// OBJ-LEN lemma: the annotated object type has len(e.Fields) fields
-				if strings.HasSuffix(src(operands[t.idx]), ".Type") {
-					s = "len(" + strings.TrimSuffix(src(operands[t.idx]), ".Type") + ".Fields)"
+				if se, ok := unparen(operands[t.idx]).(*ast.SelectorExpr); ok && se.Sel.Name == "Type" {
+					s = "len(" + w.sym(se.X) + ".Fields)"
 				} else {
 					w.fail(pos, "%s pops one value per field of a type operand that is not the node's annotation", op)
 					return
@@ -660,9 +684,9 @@ func ruleBC3(c *Ctx) {
 			if o := c.objOf(ix.X); o == nil || qual(o) != "vm.intrinsicsCallByNeed" {
 				return true
 			}
-			if lit, ok := as.Rhs[0].(*ast.FuncLit); ok {
+			if _, _, body := c.funcOf(as.Rhs[0]); body != nil {
 				n++
-				report("vm.intrinsicsCallByNeed", "emitter for "+src(ix.Index)+" nets +1", lit.Body)
+				report("vm.intrinsicsCallByNeed", "emitter for "+src(ix.Index)+" nets +1", body)
 			}
 			return true
 		})
